@@ -25,20 +25,31 @@ pub const VARIANTS: &[&str] = &[
 pub const FIRST_MO: usize = 29;
 
 #[derive(Clone, Copy, Debug, PartialEq)]
-pub enum Obj { Sphere, L1, Const, Step, Linear, Ridge }
+pub enum Obj { Sphere, L1, Const, Step, Linear, Ridge, NegSphere, NegL1, CornerL1 }
 #[derive(Clone, Copy, Debug, PartialEq)]
 pub enum Pen { None, Quad, Step }
 #[derive(Clone, Copy, Debug, PartialEq)]
-pub enum MoObj { Schaffer, Conflict, StepPair, Const }
+pub enum MoObj { Schaffer, Conflict, StepPair, Const, FarNear, Slopes }
 
-/// Three problems per case seed, so that every case exercises (a) a solve whose outcome depends on
-/// every random draw, (b) a solve full of equal fitness values, (c) a box with thin/point coordinates.
-pub const FLAVOURS: &[&str] = &["smooth", "ties", "edgy"];
+/// Four problems per case seed, so that every case exercises (a) a solve whose outcome depends on
+/// every random draw, (b) a solve full of equal fitness values, (c) a box with thin/point coordinates,
+/// (d) a solve that ends ON the boundary of a box whose bounds are "ordinary" numbers for a user and
+/// awkward ones for binary floating point (0.1, 0.3, 2/3, pi: lower+upper, upper-lower, the centre are
+/// all rounded), with the optimum in a corner (linear, distance to a corner) or in every corner
+/// (concave: as far from a reference point as the box allows). There the solvers' bound handling
+/// (clamping, reflection, opposition lower+upper-x, re-sampling) is what produces the returned
+/// coordinates, and "inside the variable bounds" is judged exactly, to the last bit.
+pub const FLAVOURS: &[&str] = &["smooth", "ties", "edgy", "corner"];
+/// Further corner problems per case seed in the native modes (cheap there: 1-thread pool only).
+pub const NATIVE_EXTRA_CORNER: usize = 5;
 
 pub struct Case {
     pub seed: u64,
     pub big: bool,
     pub flavour: usize,
+    /// 0 = the problem of this flavour that every mode runs; 1.. = further corner problems of the same case
+    /// seed, run natively only and on the 1-thread pool only (the in-bounds clause is about inputs, not schedules)
+    pub sub: usize,
     pub variant: usize,
     pub dim: usize,
     pub pop: usize,
@@ -64,13 +75,16 @@ impl Case {
 
     /// `big` = the native size class (dim 1-6, pop 4-12, 2-8 iterations); otherwise the Miri
     /// size class (dim 1-3, pop 4-8, 2-4 iterations).
-    pub fn generate(seed: u64, big: bool, flavour: usize) -> Case {
+    pub fn generate(seed: u64, big: bool, flavour: usize) -> Case { Case::generate_sub(seed, big, flavour, 0) }
+
+    pub fn generate_sub(seed: u64, big: bool, flavour: usize, sub: usize) -> Case {
         let variant = (seed % VARIANTS.len() as u64) as usize;
-        let mut r = Prng::new(seed, (if big { 0xC34B0 } else { 0xC34A0 }) + flavour as u64);
+        let mut r = Prng::new(seed, (if big { 0xC34B0 } else { 0xC34A0 }) + flavour as u64 + 0x100 * sub as u64);
         let dim = if big { r.range(1, 6) } else { r.range(1, 3) } as usize;
         let pop = if big { r.range(4, 12) } else { r.range(4, 8) } as usize;
         let iters = if big { r.range(2, 8) } else { r.range(2, 4) } as usize;
         let solver_seed = mix(r.next());
+        if flavour == 3 { return Case::corner(seed, big, sub, variant, &mut r, dim, pop, iters, solver_seed); }
         let mut lo = vec![];
         let mut hi = vec![];
         let mut kinds = vec![];
@@ -112,7 +126,74 @@ impl Case {
         let pen = *r.pick(&[Pen::None, Pen::None, Pen::Quad, Pen::Step]);
         let thr = lo[0] + (hi[0] - lo[0]) * r.unit();
         let w = *r.pick(&[1.0, 10.0, 1000.0]);
-        Case { seed, big, flavour, variant, dim, pop, iters, solver_seed, lo, hi, bound_kinds: kinds, obj, mo_obj, n_obj, c, a, pen, thr, w, degenerate }
+        Case { seed, big, flavour, sub: 0, variant, dim, pop, iters, solver_seed, lo, hi, bound_kinds: kinds, obj, mo_obj, n_obj, c, a, pen, thr, w, degenerate }
+    }
+
+    /// The "corner" problem (flavour 3). Bounds per coordinate from: decimal fractions (tenths, hundredths,
+    /// thousandths: 0.1, 0.3, 0.7, -1.25 ...), small rationals (thirds, sevenths ...), multiples of
+    /// irrational constants, random 53-bit values, a box a few ulps wide, and the lopsided / positive /
+    /// negative families of the other flavours. None of them is symmetric on purpose (a symmetric box has
+    /// lower+upper == 0 exactly). Natively (big) the solve is long enough to settle on the boundary.
+    #[allow(clippy::too_many_arguments)]
+    fn corner(seed: u64, big: bool, sub: usize, variant: usize, r: &mut Prng, dim: usize, pop: usize, iters: usize, solver_seed: u64) -> Case {
+        let iters = if big { *r.pick(&[iters, iters, 12, 20, 30]) } else { iters };
+        let mut lo = vec![];
+        let mut hi = vec![];
+        let mut kinds = vec![];
+        // one family for the whole box in half of the cases (every coordinate awkward in the same way)
+        let same = if r.chance(1, 2) { Some(r.below(9)) } else { None };
+        for _ in 0..dim {
+            let k = same.unwrap_or_else(|| r.below(9));
+            let (l, h, name): (f64, f64, &'static str) = match k {
+                0 | 1 | 2 => {
+                    // p/q and (p+w)/q as the nearest doubles (what a user's literal 0.1 or 0.3 is)
+                    let (q, name) = match k { 0 => (10.0, "tenths"), 1 => (100.0, "hundredths"), _ => (*r.pick(&[3.0, 7.0, 9.0, 11.0, 1000.0]), "fraction") };
+                    let span = if k == 0 { 30 } else { 300 };
+                    let p = r.range(0, 2 * span) as i64 - span as i64;
+                    let w = r.range(1, if k == 0 { 40 } else { 150 }) as i64;
+                    (p as f64 / q, (p + w) as f64 / q, name)
+                }
+                3 => {
+                    use std::f64::consts::{E, LN_2, PI, SQRT_2};
+                    let k1 = *r.pick(&[PI, E, SQRT_2, LN_2, 1.0 / 3.0, 0.1]);
+                    let k2 = *r.pick(&[PI, E, SQRT_2, LN_2, 1.0 / 3.0, 0.1]);
+                    let l = k1 * (r.range(0, 8) as f64 - 4.0);
+                    (l, l + k2 * r.range(1, 4) as f64, "irrational")
+                }
+                4 => { let l = -4.0 + 8.0 * r.unit(); (l, l + (0.001 + r.unit()) * *r.pick(&[0.01, 1.0, 1.0, 30.0]), "random") }
+                5 => {
+                    // a handful of ulps wide: every operation on the coordinate is at rounding scale
+                    let l = *r.pick(&[0.1, 0.3, -0.7, 1.0 / 3.0, 2.5, -1e3 / 7.0]);
+                    let k = r.range(1, 8) as i64;
+                    // towards +inf: bit pattern up for a positive value, down for a negative one
+                    (l, f64::from_bits((l.to_bits() as i64 + if l > 0.0 { k } else { -k }) as u64), "ulps")
+                }
+                6 => { let a = 1.0 + r.unit(); (-a, 100.0 * a, "lopsided") }
+                7 => { let a = 0.25 + 3.0 * r.unit(); let w = 0.5 + 10.0 * r.unit(); (a, a + w, "pos") }
+                _ => { let a = 0.25 + 3.0 * r.unit(); let w = 0.5 + 10.0 * r.unit(); (-(a + w), -a, "neg") }
+            };
+            debug_assert!(l < h);
+            lo.push(l); hi.push(h); kinds.push(name);
+        }
+        // linear with no zero slope / distance to one corner: the optimum is a corner; concave: every corner
+        // is a local optimum, so individuals are driven onto both bounds of a coordinate
+        let obj = *r.pick(&[Obj::NegSphere, Obj::NegSphere, Obj::NegSphere, Obj::NegSphere, Obj::NegL1, Obj::NegL1, Obj::Linear, Obj::CornerL1]);
+        let mo_obj = *r.pick(&[MoObj::Conflict, MoObj::FarNear, MoObj::FarNear, MoObj::Slopes]);
+        let n_obj = r.range(2, 3) as usize;
+        let c: Vec<f64> = (0..dim).map(|j| match obj {
+            Obj::CornerL1 => if r.chance(1, 2) { lo[j] } else { hi[j] },
+            // reference point inside the box, now and then exactly in the middle or outside
+            _ => match r.below(8) { 0 => (lo[j] + hi[j]) / 2.0, 1 => lo[j] - 0.5, _ => lo[j] + (hi[j] - lo[j]) * r.unit() },
+        }).collect();
+        let a: Vec<f64> = (0..dim).map(|_| *r.pick(&[1.0, -1.0, 0.5, -2.0, 3.0, -0.25])).collect();
+        let pen = *r.pick(&[Pen::None, Pen::None, Pen::None, Pen::None, Pen::None, Pen::None, Pen::Quad, Pen::Step]);
+        let thr = lo[0] + (hi[0] - lo[0]) * r.unit();
+        let w = *r.pick(&[1.0, 10.0, 1000.0]);
+        Case { seed, big, flavour: 3, sub, variant, dim, pop, iters, solver_seed, lo, hi, bound_kinds: kinds, obj, mo_obj, n_obj, c, a, pen, thr, w, degenerate: false }
+    }
+
+    pub fn problem_name(&self) -> String {
+        if self.sub == 0 { FLAVOURS[self.flavour].to_string() } else { format!("{}#{}", FLAVOURS[self.flavour], self.sub) }
     }
 
     pub fn describe(&self) -> String {
@@ -120,7 +201,7 @@ impl Case {
         let objective = if self.is_mo() { format!("{:?}x{}", self.mo_obj, self.n_obj) } else { format!("{:?}", self.obj) };
         format!(
             "{{\"case\":{},\"class\":\"{}\",\"problem\":\"{}\",\"solver\":\"{}\",\"dim\":{},\"pop\":{},\"iters\":{},\"solver_seed\":{},\"bounds\":\"{}\",\"objective\":\"{}\",\"penalty\":\"{:?}\",\"thr\":{:?},\"w\":{:?}}}",
-            self.seed, if self.big { "big" } else { "small" }, FLAVOURS[self.flavour], self.solver(), self.dim, self.pop, self.iters, self.solver_seed,
+            self.seed, if self.big { "big" } else { "small" }, self.problem_name(), self.solver(), self.dim, self.pop, self.iters, self.solver_seed,
             b.join(" "), objective, self.pen, self.thr, self.w
         )
     }
@@ -152,6 +233,9 @@ impl<'a> Prob<'a> {
             Obj::Step => v.iter().map(|x| x.floor()).sum(),
             Obj::Linear => v.iter().zip(&c.a).map(|(x, a)| a * x).sum(),
             Obj::Ridge => { let s: f64 = v.iter().sum(); s * s }
+            Obj::NegSphere => -v.iter().zip(&c.c).map(|(x, c)| (x - c) * (x - c)).sum::<f64>(),
+            Obj::NegL1 => -v.iter().zip(&c.c).map(|(x, c)| (x - c).abs()).sum::<f64>(),
+            Obj::CornerL1 => v.iter().zip(&c.c).map(|(x, c)| (x - c).abs()).sum(),
         }
     }
     fn pen_value(&self, v: &Array1<f64>) -> f64 {
@@ -184,6 +268,18 @@ impl<'a> MultiObjectiveProblem for Prob<'a> {
             MoObj::Conflict => { let s: f64 = v.iter().sum(); vec![s, -s, 1.0] }
             MoObj::StepPair => vec![v.iter().map(|x| x.floor()).sum(), v.iter().map(|x| (-x).floor()).sum(), v.iter().map(|x| (0.5 * x).floor()).sum()],
             MoObj::Const => vec![1.0, 2.0, 3.0],
+            // away from the reference point / towards it / away in L1: the front reaches into the corners
+            MoObj::FarNear => vec![
+                -v.iter().zip(&c.c).map(|(x, c)| (x - c) * (x - c)).sum::<f64>(),
+                v.iter().zip(&c.c).map(|(x, c)| (x - c) * (x - c)).sum(),
+                -v.iter().zip(&c.c).map(|(x, c)| (x - c).abs()).sum::<f64>(),
+            ],
+            // linear objectives with different slopes: the front is a set of corners and edges
+            MoObj::Slopes => vec![
+                v.iter().zip(&c.a).map(|(x, a)| a * x).sum(),
+                v.iter().zip(&c.a).map(|(x, a)| -a * x).sum(),
+                v.iter().sum(),
+            ],
         };
         f.truncate(c.n_obj);
         f
@@ -373,14 +469,16 @@ pub fn run_on(case: &Case, pool: &rayon::ThreadPool) -> Run {
     Run { res, workers: p.workers.load(Ordering::Relaxed), evals: p.evals.load(Ordering::Relaxed) }
 }
 
-/// Check one case seed (its three problems) on the given pools; pools[0] must be the 1-thread (reference) pool.
-pub fn check(seed: u64, big: bool, pools: &[(usize, &rayon::ThreadPool)]) -> Outcome {
+/// Check one case seed (its four problems, plus `extra_corner` further corner problems on pools[0] only) on
+/// the given pools; pools[0] must be the 1-thread (reference) pool.
+pub fn check(seed: u64, big: bool, pools: &[(usize, &rayon::ThreadPool)], extra_corner: usize) -> Outcome {
     let mut all = Outcome { violations: vec![], nontrivial: false, key: String::new(), info: String::new(), desc: String::new() };
     let mut descs = vec![];
     let mut infos = vec![];
-    for flavour in 0..FLAVOURS.len() {
-        let case = Case::generate(seed, big, flavour);
-        let o = check_one(&case, pools);
+    let problems = (0..FLAVOURS.len()).map(|f| (f, 0)).chain((1..=extra_corner).map(|k| (3, k)));
+    for (flavour, sub) in problems {
+        let case = Case::generate_sub(seed, big, flavour, sub);
+        let o = check_one(&case, if sub == 0 { pools } else { &pools[..1] });
         all.nontrivial |= o.nontrivial;
         all.key = o.key;
         for mut v in o.violations {
@@ -389,8 +487,8 @@ pub fn check(seed: u64, big: bool, pools: &[(usize, &rayon::ThreadPool)]) -> Out
                 all.violations.push(v);
             }
         }
-        infos.push(format!("{}:{}", FLAVOURS[flavour], o.info));
-        descs.push(o.desc);
+        if sub == 0 { infos.push(format!("{}:{}", FLAVOURS[flavour], o.info)); descs.push(o.desc); }
+        else { infos.push(format!("{}:{}", case.problem_name(), o.info.split(',').last().unwrap_or(""))); }
     }
     all.info = format!("solver={} {}", VARIANTS[(seed % VARIANTS.len() as u64) as usize], infos.join(" "));
     all.desc = format!("{{\"solver\":\"{}\",\"problems\":[{}]}}", VARIANTS[(seed % VARIANTS.len() as u64) as usize], descs.join(","));
